@@ -107,6 +107,13 @@ def run(ctx):
             reach = pg.reach(grow_edges, zok | set(v.all_err_nodes()) | not_grow_edges)
             if any(("t", s.bb) in reach for s in stores):
                 problems.append("the length store is reachable on a growing path without passing the zero fill")
+            # ... and not the other way round: a store that comes first publishes the new length while the bytes it
+            # covers still hold whatever was there; a fault in the fill then leaves them visible
+            for s_ in stores:
+                after_store = pg.reach_after(("t", s_.bb))
+                if any(("t", z.bb) in after_store for z in zs):
+                    problems.append("the length store (line %d) comes before the zero fill: if the fill fails, the new length is already in the entry and the uncleared bytes are visible" % s_.line)
+                    break
         if problems:
             res.fail(Finding("R-ZERO", key + "/incomplete-zero-fill", "; ".join(problems), f, zs[0].term["span"]))
         else:
